@@ -38,7 +38,10 @@ class Gen:
                 return r.choice(['<img alt="%s">' % r.choice(WORDS), '<img data-original="%s" alt="">' % r.choice(IMGS), '<img data-lazy-src="%s">' % r.choice(IMGS),
                                  # lazy-loading markup the differ does look at: data-src / data-srcset without (or with an empty) src / srcset
                                  '<img data-src="%s" alt="lazy">' % r.choice(IMGS), '<img src="" data-src="%s">' % r.choice(IMGS),
-                                 '<img data-srcset="%s 1x, %s 2x" alt="">' % (r.choice(IMGS), r.choice(IMGS)), '<img class="lazy" data-src="%s" data-srcset="%s 2x">' % (r.choice(IMGS), r.choice(IMGS))])
+                                 '<img data-srcset="%s 1x, %s 2x" alt="">' % (r.choice(IMGS), r.choice(IMGS)), '<img class="lazy" data-src="%s" data-srcset="%s 2x">' % (r.choice(IMGS), r.choice(IMGS)),
+                                 # candidate lists with an empty first candidate (leading blank / comma), trailing and doubled commas
+                                 '<img srcset=" %s 2x">' % r.choice(IMGS), '<img data-srcset=", %s 1x, %s 2x">' % (r.choice(IMGS), r.choice(IMGS)),
+                                 '<img src="%s" srcset="%s 1x, ">' % (r.choice(IMGS), r.choice(IMGS)), '<img srcset="%s 1x,, %s 2x">' % (r.choice(IMGS), r.choice(IMGS)), '<img srcset=" " alt="none">'])
             return '<img src="%s" alt="%s">' % (r.choice(IMGS), r.choice(WORDS))
         if k < 0.95:
             return '<br>' + (' ' if r.random() < 0.5 else '') + self.words(1, 2)
